@@ -3,7 +3,7 @@
 # dependencies the checks need are present and that /repo's working tree is importable.
 set -e
 cd "$(dirname "$0")"
-export NUMBA_NUM_THREADS=1 NUMBA_THREADING_LAYER=workqueue OPENBLAS_NUM_THREADS=1 OMP_NUM_THREADS=1 PYTHONDONTWRITEBYTECODE=1 MPLBACKEND=Agg
+export NUMBA_NUM_THREADS=4 NUMBA_THREADING_LAYER=workqueue OPENBLAS_NUM_THREADS=1 OMP_NUM_THREADS=1 PYTHONDONTWRITEBYTECODE=1 MPLBACKEND=Agg
 PYTHONPATH=/repo timeout 300 /venv/bin/python -c "
 import numpy, scipy, numba
 import aotools, os
